@@ -592,6 +592,22 @@ static int find_sec(cfg_t *cfg, cfg_t *target, char *path, size_t plen)
 	return 0;
 }
 
+static long count_arrays(cfg_t *cfg)
+{
+	long n = 0;
+	unsigned int i, j;
+	cfg_opt_t *o;
+
+	for (i = 0; (o = cfg_getnopt(cfg, i)); i++) {
+		if (o->values)
+			n++;
+		if (o->type == CFGT_SEC)
+			for (j = 0; j < o->nvalues; j++)
+				n += count_arrays(cfg_opt_getnsec(o, j));
+	}
+	return n;
+}
+
 static int count_fds(void)
 {
 	int n = 0;
@@ -1102,7 +1118,14 @@ static void run_line(char *line)
 		free(r);
 		free(p);
 	} else if (!strcmp(w[0], "LIVE")) {
-		fprintf(obs, "L %ld\n", verif_live_blocks ? verif_live_blocks() : -1);
+		/* live blocks allocated by confuse.c, minus the `values` pointer arrays (see Model/Ledger.lean) */
+		long arrays = 0;
+		int i;
+
+		for (i = 0; i < 4; i++)
+			if (ctx[i])
+				arrays += count_arrays(ctx[i]);
+		fprintf(obs, "L %ld\n", verif_live_blocks ? verif_live_blocks() - arrays : -1);
 	} else if (!strcmp(w[0], "FAULT") && n == 2) {
 		if (verif_fail_at)
 			verif_fail_at(atol(w[1]));
